@@ -88,6 +88,10 @@ def run(ids, tier):
         d = os.path.join(SEEDED, name)
         meta = json.load(open(os.path.join(d, "meta.json")))
         prop = meta["property"]
+        if meta.get("obsolete"):
+            print(name, "obsolete (the code it changed no longer exists): skipped")
+            results[name] = "obsolete"
+            continue
         with Worktree() as wt:
             r = sh("git -C %s apply %s" % (wt, os.path.join(d, "patch.diff")))
             if r.returncode:
@@ -124,7 +128,7 @@ def main():
             del args[i:i + 2]
         ids = args or sorted(os.listdir(SEEDED))
         res = run(ids, tier)
-        missed = [k for k, v in res.items() if v != "caught"]
+        missed = [k for k, v in res.items() if v not in ("caught", "obsolete")]
         print("missed / not caught:", missed)
         return 0
     return 2
